@@ -96,7 +96,16 @@ func (c *vfCase) Labelf(format string, a ...any) { c.labels = append(c.labels, f
 func (c *vfCase) Nontrivial(key string) { c.nt = true; c.ntKey = key }
 
 // Describe sets the human-readable rendering of the generated case (used for samples and failure files).
-func (c *vfCase) Describe(s string) { c.desc = s }
+func (c *vfCase) Describe(s string) {
+	c.desc = s
+	// For checks whose cases are slow enough (the driver sets VF_LASTCASE for them) keep the case about to be
+	// executed on disk: if a panic in a library goroutine kills the process, the driver reports it with this case.
+	if vfLastCasePath != "" {
+		_ = os.WriteFile(vfLastCasePath, []byte(s), 0o644)
+	}
+}
+
+var vfLastCasePath = os.Getenv("VF_LASTCASE")
 
 // Known reports whether finding key is listed in known_findings.json; if so the hit is counted and the caller
 // must exclude the observation (by construction) instead of failing.
